@@ -59,8 +59,9 @@ def build_route(route, tf, rows, fill=False, lifespan_s=None, ctype=None, spec=N
         return hx, hx._candles[key], (lambda: hx.candles(tf) if tf else hx.candles())
     if route == "hexital_level":
         member = build(spec)
-        hx = Hexital("sim", candles, [member], timeframe=tf, timeframe_fill=fill,
+        hx = Hexital("sim", candles, _family(member, siblings), timeframe=tf, timeframe_fill=fill,
                      candles_lifespan=life, candlestick_type=ctype)
+        hx.member = member
         return hx, hx._candles["default"], (lambda: hx.candles())
     if route == "hexital_two_level":
         # the Hexital itself collapses to a finer level timeframe, the member to a multiple of it:
